@@ -872,6 +872,14 @@ def run(ctx):
             fam += [[("Main", _c14.relayout(det.fork(), cat))] for _ in range(4)]
             fam.append([("a.very.long.module.name.that.makes.the.location.line.of.an.error.wider.than.the.rule.Main", cat + "\nclass Dup {} class Dup {}")])
         fam += [[("Main", _c14.gen_module(det.fork()))] for _ in range(40)]
+        # module paths with non-ASCII parts (file names are user input too): the location of a diagnostic is
+        # laid out against a fixed rule width, so every char-count / byte-count relation around that width is
+        # visited with 2-, 3- and 4-byte scalars, for a syntax error and for a type error
+        for unit in ("\u00e9", "\u65e5", "\U0001F600", "a\u0301"):
+            for n in range(1, 41):
+                nm = unit * n
+                fam.append([(nm + ".Main", "class Main {\n  function main(): unit = {\n")])
+                fam.append([("P." + nm, "class Main {\n  function f(): int = true\n  function main(): unit = Process.println(\"m\")\n}\n")])
         check_full_batch(ctx, fam, "deterministic family: syntax and diagnostics", stats, timeout_ms=ctx.scale(20000, 60000))
         ddone += len(fam)
         exprs = ["1", "(a, b: int) -> a + b", "(a, b) -> a", "() -> 1", "(a) -> a", "if let Some(v) = o { v } else { 0 }",
